@@ -89,6 +89,9 @@ impl Property for C15Prop {
     }
 
     fn check_case(&self, case: &Json, stats: &mut Stats) -> Verdict {
+        if case["kind"].as_str() == Some("checked-type") {
+            return check_checked_type(case["text"].as_str().unwrap_or(""), stats);
+        }
         let text = case["ty"].as_str().unwrap_or("int");
         let rot = case["rot"].as_u64().unwrap_or(0) as usize;
         let Ok(first) = Type::from_str(text) else {
@@ -238,6 +241,43 @@ impl Property for C15Prop {
     }
 }
 
+/// The types the checker itself computes (for array literals over union-typed elements, concatenations
+/// with `[]`, joins of branches, results of calls): each is printed, read back, and must be `==` to itself
+/// and have the same structure in the harness's eyes (a union inside a union, or a `!` next to other
+/// members, prints like the flat union but is another value).
+fn check_checked_type(text: &str, stats: &mut Stats) -> Verdict {
+    use simplesl::variable::ReturnType;
+    stats.eval();
+    let interp = crate::exec::safe_interpreter();
+    let code = match run::parse_guarded(&interp, text) {
+        Ok(Ok(code)) => code,
+        Ok(Err(_)) => return Verdict::Discard("program rejected"),
+        Err(o) => return fail(format!("C15:checked-type:{}", o.panic_sig().unwrap_or_default()), format!("`{text}`: {}", o.short())),
+    };
+    let Ok(t) = run::guarded(|| code.return_type()) else {
+        return fail("C15:checked-type:return_type", format!("Code::return_type() of `{text}` panicked"));
+    };
+    let Ok(printed) = run::guarded(|| t.to_string()) else {
+        return fail("C15:display", format!("printing the static type of `{text}` panicked"));
+    };
+    stats.label("types computed by the checker");
+    stats.nontrivial(text);
+    stats.sample(4, || json!({"program": text, "static_type": printed}));
+    let back = match run::guarded(|| Type::from_str(&printed)) {
+        Ok(Ok(b)) => b,
+        Ok(Err(_)) => return fail("C15:unparsable-print", format!("the static type of `{text}` prints as `{printed}`, which does not parse")),
+        Err(c) => return fail(format!("C15:from_str:{}", c.sig()), format!("parsing `{printed}` panicked")),
+    };
+    let (m, mb) = (Ty::from_real(&t), Ty::from_real(&back));
+    if back != t || mb != m {
+        return fail(
+            "C15:checked-type:roundtrip",
+            format!("the static type of `{text}` prints as `{printed}`; read back it is {} and {} to the original ({:?} against {:?})", mb.print(), if back == t { "==" } else { "not ==" }, back, t),
+        );
+    }
+    Verdict::Pass
+}
+
 /// identifiers that look like words of the language: words with a syntactic role that are not
 /// reserved, type names, and identifiers that begin with a reserved word
 const FIELD_WORDS: [&str; 30] = [
@@ -245,8 +285,30 @@ const FIELD_WORDS: [&str; 30] = [
     "module", "breaks", "continued", "truth", "falsehood", "whiles", "fort", "x1", "_a", "a_b", "A", "camelCase", "init", "iff",
 ];
 
+fn checked_type_cases() -> Vec<Json> {
+    let pre = "hb := *(mut bool true); a := if hb { 1 } else { \"s\" }; b := if hb { 2.5 } else { [1] }; anyv := (v: any) -> any { return v; }; e := []; ints := (x: [int]) -> [int] { return x; }; never := () -> ! { return never(); }; ";
+    let exprs = [
+        "[a, 1.5]", "[1.5, a]", "[a, a]", "[a, b]", "[anyv(1), 2]", "[2, anyv(1)]", "[] + ints([1, 2])", "e + ints([1])", "ints([1]) + e", "[] + [a]", "[a] + [1.5]", "[a] + e + [b]",
+        "(a, [a, 2.5])", "if hb { [a] } else { [1.5] }", "[[a], [1.5]]", "[a, [a]]", "[[a, 1.5], [b]]", "mut [a, 1.5]", "struct{f := [a, 1.5], g := a}", "() -> any { return [a, 1.5]; }",
+        "() -> [int|string|float] { return [a, 1.5]; }", "[a]~", "[a, 1.5]~", "[a, 1.5]~ @ (x: any) -> any { return x; }", "[a, 1.5]~ ? int $]", "[a, 1.5]~ ? int|string $]", "match a { x: int => [x], x: string => [x, 1.5], }",
+        "[ints([1]), []]", "[[], ints([1])]", "[[], [a]]", "[a; 2]", "[[a, 1.5]; 2]", "[a, 1.5][0]", "[a, 1.5][0:1]", "([a, 1.5], [b])", "[(a, 1), (1.5, b)]", "[mut a, mut 1.5]", "[() -> int|string { return a; }, () -> float { return 1.5; }]",
+        "if hb { a } else { b }", "[if hb { a } else { b }, 1]", "[a, ()]", "[(), a, ()]", "[a, true, 1.5, \"s\", [1], ()]", "x := [a, 1.5]; y := x + [b]; y", "x := mut [any] []; x += [a]; *x",
+        "[] + []", "[[]] + [[1]]", "if hb { [] } else { [a] }", "if hb { never() } else { [a, 1.5] }", "[a, 1.5] + []",
+    ];
+    exprs.iter().map(|e| json!({"kind": "checked-type", "text": format!("{pre}{e}")})).collect()
+}
+
 pub fn run(session: &Session) -> i32 {
     crate::engine::run_regressions(session, &C15);
+    if !session.stopped() {
+        // every program several times (fresh hash orders for the unions the checker builds)
+        let mut cases = vec![];
+        for _ in 0..session.tier.of(6, 40) {
+            cases.extend(checked_type_cases());
+        }
+        session.set_extra("checked_type_cases", json!(cases.len()));
+        session.run_enum(&C15, cases);
+    }
     // unions nested under one another through every constructor, three and four levels deep, and
     // unions of 2 to 12 members (alone and nested): each in 4 source orders
     let wrap = |k: usize, x: &str| match k % 6 {
